@@ -321,7 +321,10 @@ def corrupted_containers(report, tier):
                 original = source_file.read()
             suffix = os.path.splitext(path)[1]
             victims = []
-            for offset in range(0, len(original), step):
+            # every step-th byte, and every byte of the first 64 and the last 160 (local header; central directory end)
+            offsets = sorted(set(range(0, len(original), step)) | set(range(0, min(64, len(original))))
+                             | set(range(max(0, len(original) - 160), len(original))))
+            for offset in offsets:
                 victims.append(("truncated at %d" % offset, original[:offset]))
                 flipped = bytearray(original)
                 flipped[offset] ^= 0x55
